@@ -76,6 +76,55 @@ def isSynth504 (x : Ex) : Bool :=
 
 def first? {α} (l : List (Option α)) : Option α := l.findSome? id
 
+
+/-! ### the stored response as the ORIGIN's replies define it (ghost)
+
+Monitors that read the stored response from the implementation's own store see what the cache wrote,
+so a field lost or kept wrongly at WRITE time (e.g. the Age of a 304 while freshening) is invisible
+to them. The ghost recomputes, from the scripted replies alone, the header and the two instants each
+stored response must have (RFC 9111 §3, §4.3.4): a full reply replaces it, a 304 freshens it with
+`Spec.merge304`, a delete forgets it. It is defined only for histories without store faults and only
+for sequential ones; otherwise the monitors fall back to the stored copy. -/
+
+def dateFixed (h : Hist) (hd : Header) (t1 : Int) : Header :=
+  match Spec.httpTime h.glue.parseTime hd sDate with
+  | some _ => hd
+  | none => Header.set hd sDate (httpDate (t1 / nsPerSec))
+
+/-- the ghost of the entry read by the foreground of exchange `n` -/
+def Hist.ghostAt (h : Hist) (n : Nat) : Option Spec.Stored :=
+  if !h.faults.isEmpty || !h.own.isEmpty || h.cls == "concurrent" || h.cls == "inval-race" then none else
+  let rec go (evs : List Ev) (m : List (Str × Option Spec.Stored)) : Option Spec.Stored :=
+    match evs with
+    | [] => none
+    | .call _ :: r => go r m
+    | .store e :: r =>
+      if e.n = n && e.stream == "fg" && e.op == "get" && (match e.val with | .ent _ _ => true | _ => false) then
+        (alookup e.key m).join
+      else match e.op, e.val with
+        | "set", .ent _ _ =>
+          let cause := ((h.calls e.n e.stream).getLast?).bind fun c =>
+            if c.outcome == "resp" then (h.reply e.n c.k).map fun rp => (c, rp) else none
+          let v : Option Spec.Stored := match cause with
+            | none => none
+            | some (c, rp) =>
+              if rp.kind != "resp" then none
+              else if rp.resp.status = 304 then
+                ((alookup e.key m).join).map fun old =>
+                  { old with header := Spec.merge304 canonicalHeaderKey old.header (dateFixed h rp.resp.header c.t1),
+                             requestTime := c.t0, responseTime := c.t1 }
+              else some { status := rp.resp.status, header := dateFixed h rp.resp.header c.t1, requestTime := c.t0, responseTime := c.t1 }
+          go r (ainsert e.key v m)
+        | "del", _ => go r (ainsert e.key none m)
+        | _, _ => go r m
+  go h.evs []
+
+/-- the views of the stored response a monitor judges: the stored copy and, when defined, the ghost -/
+def Hist.storedViews (h : Hist) (n : Nat) (e : Entry) : List (String × Spec.Stored) :=
+  ("", storedOf e) :: (match h.ghostAt n with
+    | some g => [(" [by the header and instants the origin's replies imply; the stored copy differs]", g)]
+    | none => [])
+
 /-! ### C01 -/
 def monC01 (h : Hist) : Option String :=
   let parse := h.glue.parseTime
@@ -85,7 +134,7 @@ def monC01 (h : Hist) : Option String :=
     match x.entry with
     | none => some s!"exchange {ri.n}: answered from the store without an origin call, but no entry was read from the store"
     | some e =>
-      let s := storedOf e
+      (h.storedViews ri.n e).findSome? fun (note, s) =>
       let now := x.res.t0
       if Spec.isFresh Spec.rfc parse s now then none
       else
@@ -96,7 +145,7 @@ def monC01 (h : Hist) : Option String :=
             | some w => Spec.withinWindow Spec.rfc parse s now w && !x.bgCalls.isEmpty
             | none => false
           if swrOk then none
-          else some s!"exchange {ri.n}: stale response served without origin contact: age={Spec.currentAge parse s now} lifetime={Spec.freshnessLifetime Spec.rfc parse s} (ns), request [{showHdrs ri.req.header}], stored [{showHdrs s.header}]"
+          else some s!"exchange {ri.n}: stale response served without origin contact: age={Spec.currentAge parse s now} lifetime={Spec.freshnessLifetime Spec.rfc parse s} (ns), request [{showHdrs ri.req.header}], stored [{showHdrs s.header}]{note}"
 
 /-! ### C02 -/
 def condHeadersOk (reqH storedH callH : Header) : Bool :=
@@ -119,6 +168,9 @@ def monC02 (h : Hist) : Option String :=
     | some e =>
       let s := storedOf e
       let now := x.res.t0
+      let strictG := match h.ghostAt ri.n with
+        | some g => Spec.strictValidate Spec.rfc parse ri.req.header g now
+        | none => false
       let strict := Spec.strictValidate Spec.rfc parse ri.req.header s now
       let soft := Spec.requestMaxAgeExceeded Spec.rfc parse ri.req.header s now
       let servedStored := x.fromStore && x.token == tokenOf e.resp.body
@@ -129,7 +181,9 @@ def monC02 (h : Hist) : Option String :=
         | none => none
       if condBad.isSome then condBad else
       if servedStored && !x.got304 h then
-        if strict then
+        if !strict && strictG then
+          some s!"exchange {ri.n}: stored response that requires validation (by the header and instants the origin's replies imply; the stored copy differs) returned without a 304 in this exchange (request [{showHdrs ri.req.header}], stored copy [{showHdrs s.header}])"
+        else if strict then
           some s!"exchange {ri.n}: stored response that requires validation returned without a 304 in this exchange (request [{showHdrs ri.req.header}], stored [{showHdrs s.header}], age={Spec.currentAge parse s now}, lifetime={Spec.freshnessLifetime Spec.rfc parse s})"
         else if soft && x.fgCalls.isEmpty then
           some s!"exchange {ri.n}: request max-age exceeded but the stored response was returned without contacting the origin (request [{showHdrs ri.req.header}], age={Spec.currentAge parse s now})"
@@ -267,11 +321,12 @@ def monC11 (h : Hist) : Option String :=
             match x.entry with
             | none => none
             | some e =>
-              let want := Spec.currentAge parse (storedOf e) x.res.t1 / nsPerSec
+              (h.storedViews ri.n e).findSome? fun (note, s) =>
+              let want := Spec.currentAge parse s x.res.t1 / nsPerSec
               match Header.values x.res.hdr sAge with
               | [a] =>
                 if !a.isEmpty && a.all isDigit && ((natOfDigits a : Int) - want).natAbs ≤ 1 then none
-                else some s!"exchange {ri.n}: Age is {shw a}, current age is {want} s"
+                else some s!"exchange {ri.n}: Age is {shw a}, current age is {want} s{note}"
               | l => some s!"exchange {ri.n}: {l.length} Age fields on a response served from the store"
           else none
     | l => some s!"exchange {ri.n}: {l.length} X-Httpcache-Status values"
